@@ -87,6 +87,10 @@ add("K8", "C06", "open", "a field of object type selected without a sub-selectio
     hazard="K8", symptoms=[r"^accepted E3: no-subselection"], engine="A", extra={"schema": BASE, "document": "query Q { me }\n", "rule": "E3", "label": "no-subselection@op:Q/me"})
 
 
+add("K11", "C10", "open", "SDL type extensions other than `extend type` are ignored: a value added by `extend enum Status { IN_REVIEW }` is not a variant and deserialises to Other(\"IN_REVIEW\") "
+    "(likewise members added by `extend union`, fields by `extend interface` / `extend input`). The definition's own values are unaffected. A repair means four more ingestion passes in the SDL reader",
+    hazard="K11", symptoms=[r"^schema value 'IN_REVIEW' deserialises to the catch-all"], engine="B-generated",
+    extra={"schema": "enum Status { OPEN closed type }\ntype Query { e: Status }\nextend enum Status { IN_REVIEW }\n", "document": "query Q { e }\n"})
 add("K10", "C17", "open", "a chain of 60,000 input types (I0 { next: I1 } ... ; flat SDL, 2.4 MB) used by a variable overflows the 8 MiB stack in the recursive "
     "used-input walk (schema.rs used_input_ids_recursive), SIGABRT; 30,000 still comes back (after 200 s: the walks are quadratic). A repair means "
     "rewriting both input-graph walks iteratively and still leaves quadratic time",
